@@ -260,6 +260,22 @@ theorem C13_topological_pinned_order (db : Db) (hns : NoUnsetup db) (top : Prod)
   refine ⟨ls.length - lvl pu, ls.length - lvl pv, hdepth hps eu hu pu hlu hnu, hdepth hps ev hv pv (Or.inr hlv) hnv, ?_⟩
   omega
 
+/-- **The pinned statements generalise the `SingleVersion` ones**: when the closure holds no product in two versions,
+the pinned graph *is* the closure — the same tables are opened, their lines denote the same products, the paths are
+the same — and `PinnedSingle` holds.  `C13_topological_pinned_order` and `C13_checkCycles_exact` then say what
+`C13_topological_partial` and `C13_cycle_reported` say. -/
+theorem C13_pinned_is_closure (db : Db) (hns : NoUnsetup db) (top : Prod) (hsv : SingleVersion db top) :
+    PinnedSingle db (pins db top) top ∧
+    (∀ w, XReach db (pins db top) top w ↔ XReach db [] top w) ∧
+    (∀ u v, XReach db [] top u → (Edge db (pins db top) u v ↔ Edge db [] u v)) ∧
+    (∀ a b, DepPathR db (pins db top) top a b ↔ DepPath db top a b) := by
+  obtain ⟨out1, st1, h1⟩ := listing_total db [] top
+  have hp : pins db top = pinsOf out1 := by simp [pins, h1]
+  have hout := listing_out_listed hns h1
+  rw [hp]
+  exact ⟨pinnedSingle_of_singleVersion hsv hout, xreach_pins_iff hsv hout,
+    fun u v hu => edge_pins_iff hsv hout hu, depPathR_pins_iff hsv hout⟩
+
 /-! ## totality -/
 
 /-- **The listing never raises** (repaired tree; D18 was the `TypeError`, D32 the `RecursionError`): on **every**
